@@ -182,6 +182,21 @@ def run(ctx, chk, tier="quick"):
            key="regrid|rounding-function",
            why="floor reports a level below the lower sample; rounding counts levels outside the pair")
 
+    # the two ends of a pair are adjacent elements i, i+1 of the rounded array
+    odd = []
+    for node in ast.walk(outer):
+        if isinstance(node, ast.Subscript) and isinstance(node.value, ast.Name) and node.value.id == rname and not isinstance(node.slice, ast.Slice):
+            try:
+                ip = py_poly(node.slice)
+            except NotAlgebraic:
+                continue
+            if ip not in (Poly.atom(ivar), Poly.atom(ivar) + Poly.const(1)):
+                odd.append(node)
+    if odd:
+        chk.ob("C12.O2", False, where_of(f, odd[0]), "pair end taken from %s" % ast.unparse(odd[0]),
+               "%s[i] and %s[i + 1]: consecutive samples" % (rname, rname), key="regrid|adjacent-pair",
+               why="levels between non-adjacent samples are attributed to the wrong segment")
+        return
     # order-cell evaluation of the enumeration
     S, T = "%s@0" % rname, "%s@1" % rname
     body = outer.body
